@@ -246,9 +246,9 @@ def valid_async_history(rng, kind, tier, name, nops=None, cfg=None, allow_out_of
                     meta['ops'].append({'op': 'setratio', 'envelope': True})
                 ann['envelope'], ann['why'] = tr.envelope()
         if kindop == 'pib':
-            extra_in = rng.choice(['', '', '', '+1', '+7'])
+            extra_in = rng.choice(['', '', '', '+1', '+7', 'MAX'])
             extra_out = rng.choice(['next', 'next', 'max', 'next+3', 'max+5'])
-            il = lens(lambda ch, act: ('next' + extra_in) if act else rng.choice(['abs:0', 'next']), nch, m)
+            il = lens(lambda ch, act: ('max' if extra_in == 'MAX' else 'next' + extra_in) if act else rng.choice(['abs:0', 'next']), nch, m)
             ol = lens(lambda ch, act: extra_out if act else rng.choice(['abs:0', 'abs:3']), nch, m)
             lines.append("PIB mask=%s inlen=%s outlen=%s sig=%s" % (mstr, il, ol, sigs))
             tr.processed()
@@ -327,9 +327,10 @@ def valid_fft_history(rng, kind, tier, name, nops=None, cfg=None, const_mask=Non
         mstr = m if m is not None else '-'
         ann = {'op': kindop, 'envelope': True}
         if kindop == 'pib':
-            extra_in = rng.choice(['', '', '+1', '+9'])
+            # longer input than required is allowed: a frame or two, the whole buffer from input_buffer_allocate, several blocks
+            extra_in = rng.choice(['', '', '+1', '+9', 'MAX', 'MAX', '+700'])
             extra_out = rng.choice(['next', 'next', 'max', 'next+3'])
-            il = lens(lambda ch, act: ('next' + extra_in) if act else rng.choice(['abs:0', 'next']), nch, m)
+            il = lens(lambda ch, act: ('max' if extra_in == 'MAX' else 'next' + extra_in) if act else rng.choice(['abs:0', 'next']), nch, m)
             ol = lens(lambda ch, act: extra_out if act else rng.choice(['abs:0', 'abs:3']), nch, m)
             lines.append("PIB mask=%s inlen=%s outlen=%s sig=%s" % (mstr, il, ol, sigs))
         elif kindop == 'process':
